@@ -101,9 +101,24 @@ def like_match(hay, pattern, esc, ci=False):
 
 
 # ------------------------------------------------------------------ expression under test
+LIKE_OPS = ["like", "not_like", "ilike", "not_ilike"]
+
+
+def like_pattern(case):
+    """the pattern handed to a plain like()/ilike(): optional live wildcards around the (harness-escaped) needle"""
+    pre, post = case.get("wrap", ["", ""])
+    body = harness_escape(case["needle"], case["esc"]) if case["mode"] == "manual" else case["needle"]
+    return pre + body + post
+
+
 def build(sa, left, case):
     op, mode, esc, needle = case["op"], case["mode"], case.get("esc"), case["needle"]
     fn = getattr(left, op)
+    if op in LIKE_OPS:
+        if mode not in ("none", "manual"):
+            raise HarnessError(mode)
+        e = fn(like_pattern(case), escape=esc if mode == "manual" else None)
+        return ~e if case.get("negate") else e
     if mode == "auto":
         e = fn(needle, autoescape=True)
     elif mode == "auto_esc":
@@ -116,7 +131,25 @@ def build(sa, left, case):
 
 
 def eff_escape(case):
+    if case["mode"] == "none":
+        return None
     return "/" if case["mode"] == "auto" else case["esc"]
+
+
+def expected_pred(case, hay):
+    """truth of one predicate on one haystack, each predicate judged with its own escape setting"""
+    op = case["op"]
+    if op in LIKE_OPS:
+        pat = like_pattern(case)
+        if "ilike" in op:
+            r = like_match(hay.lower(), pat.lower(), eff_escape(case))
+        else:
+            r = like_match(hay, pat, eff_escape(case))
+        if op.startswith("not_"):
+            r = not r
+    else:
+        r = expected(op, hay, case["needle"])
+    return r != bool(case.get("negate"))
 
 
 def known_trigger(case):
@@ -232,6 +265,149 @@ def _random_cases(draw, with_dialect=False):
 
 def check_random(case, ctx):
     run_live(case, ctx, case["hays"])
+
+
+# ------------------------------------------------------------------ several LIKE-family predicates in one statement
+COMBO_POS = ["where", "case", "exists", "subq"]
+
+
+@st.composite
+def _one_pred(draw):
+    """(predicate, haystacks built around it); operator, operand column, needle, escape character and autoescape flag all drawn independently"""
+    ch = st.sampled_from(ALPHA)
+    op = draw(st.sampled_from(OPS + OPS + LIKE_OPS))
+    if op in LIKE_OPS:
+        mode = draw(st.sampled_from(["none", "manual"]))
+    else:
+        mode = draw(st.sampled_from(MODES))
+    esc = draw(st.sampled_from(ESCAPES)) if mode in ("auto_esc", "manual") else None
+    alpha = [c for c in ALPHA if c != "\\"] if mode == "none" else ALPHA  # no ESCAPE clause: PostgreSQL/MySQL would default to backslash
+    chars = draw(st.lists(st.sampled_from(alpha), min_size=0, max_size=4))
+    if draw(st.integers(0, 2)) > 0:
+        chars.insert(draw(st.integers(0, len(chars))), draw(st.sampled_from(["%", "_", esc or "/"])))
+    needle = "".join(chars)
+    pred = {"op": op, "needle": needle, "mode": mode, "esc": esc, "negate": draw(st.integers(0, 4)) == 0, "col": draw(st.integers(0, 1))}
+    if op in LIKE_OPS:
+        wild = ["", "%", "%"] if esc == "_" else ["", "%", "_", "%"]  # with ESCAPE '_' a bare underscore is no wildcard
+        pred["wrap"] = [draw(st.sampled_from(wild)), draw(st.sampled_from(wild))]
+    rnd = st.lists(ch, max_size=2).map("".join)
+    hays = []
+    for _ in range(draw(st.integers(1, 3))):
+        k = draw(st.integers(0, 5))
+        e = esc or "/"
+        if k == 0:
+            core = needle
+        elif k == 1:
+            core = "".join(draw(rnd) if c == "%" else (draw(ch) if c == "_" else c) for c in needle)
+        elif k == 2:
+            core = harness_escape(needle, e)
+        elif k == 3:
+            core = needle.replace(e, e + e)
+        elif k == 4:
+            core = needle.swapcase()
+        else:
+            core = draw(rnd)
+        where = draw(st.integers(0, 3))
+        hays.append((draw(rnd) if where in (1, 3) else "") + core + (draw(rnd) if where in (2, 3) else ""))
+    return pred, hays
+
+
+@st.composite
+def _combo_cases(draw, with_dialect=False):
+    n = draw(st.integers(2, 3))
+    preds, pool = [], []
+    for _ in range(n):
+        p, hs = draw(_one_pred())
+        preds.append(p)
+        pool.extend(hs)
+    pool.append("")
+    rows = [[draw(st.sampled_from(pool)), draw(st.sampled_from(pool))] for _ in range(draw(st.integers(2, 6)))]
+    # every haystack built for a predicate sits at least once in the column that predicate reads
+    for p, h in zip(preds, pool):
+        r = [draw(st.sampled_from(pool)), draw(st.sampled_from(pool))]
+        r[p["col"]] = h
+        rows.append(r)
+    case = {"preds": preds, "ops": [draw(st.sampled_from(["and", "or"])) for _ in range(n - 1)], "outer_not": draw(st.integers(0, 4)) == 0, "rows": rows}
+    if with_dialect:
+        case["dialect"] = draw(st.sampled_from(P_DIALECTS))
+    else:
+        case["pos"] = draw(st.sampled_from(COMBO_POS))
+    return case
+
+
+def _combo_expected(case, row):
+    vals = [expected_pred(p, row[p["col"]]) for p in case["preds"]]
+    r = vals[0]
+    for o, v in zip(case["ops"], vals[1:]):
+        r = (r and v) if o == "and" else (r or v)
+    return (not r) if case.get("outer_not") else r
+
+
+def _combo_classes(case):
+    escs = [repr(eff_escape(p)) for p in case["preds"]]
+    cls = ["npreds:%d" % len(case["preds"])]
+    differ = len(set(escs)) > 1
+    if differ:
+        cls.append("escapes-differ")
+        if "None" in escs:
+            cls.append("escape-vs-no-escape")
+    if any(p["op"] in LIKE_OPS for p in case["preds"]):
+        cls.append("has-plain-like")
+    if any(p["op"].startswith("i") or "ilike" in p["op"] for p in case["preds"]):
+        cls.append("has-case-insensitive")
+    return differ, cls
+
+
+def _combo_expr(sa, t, case, wrap_in_subquery=False):
+    parts = []
+    for i, p in enumerate(case["preds"]):
+        e = build(sa, t.c.s1 if p["col"] == 0 else t.c.s2, p)
+        if wrap_in_subquery and i > 0:
+            # the predicate sits in a correlated scalar subquery of the same statement
+            e = sa.select(sa.case((e, 1), else_=0)).correlate(t).scalar_subquery() == 1
+        parts.append(e)
+    full = parts[0]
+    for o, e in zip(case["ops"], parts[1:]):
+        full = sa.and_(full, e) if o == "and" else sa.or_(full, e)
+    return sa.not_(full) if case.get("outer_not") else full
+
+
+def check_combo(case, ctx):
+    import sqlalchemy as sa
+    from vf import sautil
+
+    differ, cls = _combo_classes(case)
+    ctx.note(case, differ, classes=cls + ["pos:" + case["pos"]])
+    rows = case["rows"]
+    md = sa.MetaData()
+    t = sa.Table("t", md, sa.Column("id", sa.Integer, primary_key=True), sa.Column("s1", sa.String(40)), sa.Column("s2", sa.String(40)))
+    eng = sautil.mem_engine()
+    try:
+        with eng.connect() as conn:
+            conn.exec_driver_sql("PRAGMA case_sensitive_like=ON")  # the i-variants render lower(...) LIKE lower(...), unaffected
+            md.create_all(conn)
+            conn.execute(t.insert(), [{"id": i + 1, "s1": r[0], "s2": r[1]} for i, r in enumerate(rows)])
+            want = {i + 1 for i, r in enumerate(rows) if _combo_expected(case, r)}
+            pos = case["pos"]
+            e = _combo_expr(sa, t, case, wrap_in_subquery=(pos == "subq"))
+            if pos in ("where", "subq"):
+                stmt = sa.select(t.c.id).where(e)
+            elif pos == "case":
+                stmt = sa.select(t.c.id).where(sa.case((e, 1), else_=0) == 1)
+            else:
+                stmt = sa.select(t.c.id).where(sa.exists(sa.select(sa.literal_column("1")).where(e).correlate(t)))
+            got = {r[0] for r in conn.execute(stmt)}
+            if got != want:
+                c = stmt.compile(eng)
+                extra, missing = sorted(got - want), sorted(want - got)
+                raise Violation(
+                    "C08/combo/sqlite/" + ("false-positive" if extra else "false-negative"),
+                    f"{len(case['preds'])} LIKE-family predicates in one statement ({[(p['op'], p['needle'], p['mode'], eff_escape(p)) for p in case['preds']]!r}) as "
+                    f"{str(c)!r} with {c.params!r}: matched-but-should-not {[rows[i - 1] for i in extra][:4]!r}, missed {[rows[i - 1] for i in missing][:4]!r}",
+                    observed=sorted(got), expected=sorted(want),
+                )
+    finally:
+        eng.dispose()
 
 
 _EXH_ALPHA = ["%", "_", "/", "a", "A"]
@@ -361,9 +537,85 @@ def check_pattern(case, ctx):
             )
 
 
+def _combo_eval(a, row, dname, resolve, doubled):
+    """2-valued evaluation of AND / OR / NOT over LIKE predicates of the parsed statement text"""
+    k = a[0]
+    if k == "paren":
+        return _combo_eval(a[1], row, dname, resolve, doubled)
+    if k == "un" and a[1] == "NOT":
+        return not _combo_eval(a[2], row, dname, resolve, doubled)
+    if k == "bin" and a[1] in ("AND", "OR"):
+        l = _combo_eval(a[2], row, dname, resolve, doubled)
+        r = _combo_eval(a[3], row, dname, resolve, doubled)
+        return (l and r) if a[1] == "AND" else (l or r)
+    if k == "like":
+        _, kw, neg, left, pat, escn = a
+        lnode = left
+        while lnode[0] == "paren":
+            lnode = lnode[1]
+        lower = lnode[0] == "func" and lnode[1] == "LOWER"
+        if lower:
+            lnode = lnode[2][0]
+            while lnode[0] == "paren":
+                lnode = lnode[1]
+        cname = lnode[2].lower().split(".")[-1].strip('"`[]') if lnode[0] == "atom" else None
+        if cname not in ("s1", "s2"):
+            raise HarnessError(f"combo evaluator: left operand {lnode}")
+        hay = row[0 if cname == "s1" else 1]
+        if lower:
+            hay = hay.lower()
+        pattern = _str_eval(pat, dname, resolve, doubled)
+        esc = _str_eval(escn, dname, resolve, doubled) if escn is not None else ("\\" if dname in ("mysql", "mariadb", "postgresql") else None)
+        if esc is not None and len(esc) != 1:
+            raise Violation(f"C08/pattern/{dname}/escape-not-one-char", f"ESCAPE clause decodes to {esc!r}", observed=esc)
+        try:
+            r = like_match(hay, pattern, esc, ci=(kw == "ILIKE"))
+        except ValueError as err:
+            raise Violation(f"C08/combo/pattern/{dname}/dangling-escape", f"pattern {pattern!r} ESCAPE {esc!r}: {err}", observed=pattern)
+        return r != bool(neg)
+    raise HarnessError(f"combo evaluator: unsupported node {a[:2]}")
+
+
+def check_combo_pattern(case, ctx):
+    import sqlalchemy as sa
+    from checks import _sqlparse as P
+    from checks.c01 import _dialect
+
+    dname = case["dialect"]
+    differ, cls = _combo_classes(case)
+    ctx.note(case, differ, classes=cls + ["dialect:" + dname])
+    t = sa.table("t", sa.column("s1", sa.String()), sa.column("s2", sa.String()))
+    e = _combo_expr(sa, sa.table("t", sa.column("s1", sa.String()), sa.column("s2", sa.String())), case)
+    del t
+    c = e.compile(dialect=_dialect(dname))
+    sql = str(c)
+    doubled = bool(getattr(c.preparer, "_double_percents", False))
+    try:
+        ast = P.parse(sql, P.SPECS[dname])
+    except P.ParseError as err:
+        raise Violation(f"C08/combo/pattern/{dname}/unparseable", f"{sql!r}: {err}", observed=sql)
+    params = c.params
+    pos = list(c.positiontup) if c.positiontup else None
+
+    def resolve(key):
+        return params[pos[key]] if isinstance(key, int) else params[key]
+
+    for row in case["rows"]:
+        got = _combo_eval(ast, row, dname, resolve, doubled)
+        want = _combo_expected(case, row)
+        if got != want:
+            raise Violation(
+                f"C08/combo/pattern/{dname}/" + ("false-positive" if got else "false-negative"),
+                f"{dname}: {[(p['op'], p['needle'], p['mode'], eff_escape(p)) for p in case['preds']]!r} renders {sql!r} with {params!r}; row {row!r} -> {got}, expected {want}",
+                observed=got, expected=want,
+            )
+
+
 def subs(tier):
     return [
         Generated("random", check_random, strategy=_random_cases(), quick=6000, thorough=200000),
         Enumerated("exh", check_exh, cases=_exh_cases),
         Generated("pattern", check_pattern, strategy=_random_cases(with_dialect=True), quick=6000, thorough=200000),
+        Generated("combo", check_combo, strategy=_combo_cases(), quick=4000, thorough=150000),
+        Generated("combo_pattern", check_combo_pattern, strategy=_combo_cases(with_dialect=True), quick=3000, thorough=100000),
     ]
